@@ -120,6 +120,9 @@ func runC16(e *Env) {
 		if inGroup && (t.Idx/combos)%2 == 1 {
 			base = strings.TrimPrefix(base, "/") // "", "api/", "v1/admin/": relative to the enclosing group
 		}
+		if !inGroup && (t.Idx/combos)%2 == 1 && base == "/api/" {
+			base = "/{tenant}/" // a base path with a variable: create and show are both dynamic routes then
+		}
 		second := !inGroup && (t.Idx/combos+t.Idx)%3 == 0 // the same controller type is mounted a second time under another base
 		cacheOn := t.Idx%3 == 0
 		t.Describe(func() any {
@@ -199,6 +202,10 @@ func runC16(e *Env) {
 			tb := &Table{}
 			fullSegs := []Seg{}
 			for _, s := range strings.Split(strings.Trim(full, "/"), "/") {
+				if s == "{tenant}" {
+					fullSegs = append(fullSegs, Seg{Var: &Var{Name: "tenant", Class: classes[0]}})
+					continue
+				}
 				fullSegs = append(fullSegs, Seg{Pre: s})
 			}
 			for i, row := range c16Table {
@@ -237,7 +244,8 @@ func runC16(e *Env) {
 
 			// probe matrix
 			cfg := RouterCfg{NotAllowed: true, CacheCap: -1}
-			paths := []string{full, full + "/", full + "/create", full + "/7", full + "/create/edit", full + "/7/edit", full + "/7/x", "/other", full + "/edit"}
+			full = strings.ReplaceAll(full, "{tenant}", "acme") // the request spelling
+		paths := []string{full, full + "/", full + "/create", full + "/7", full + "/create/edit", full + "/7/edit", full + "/7/x", "/other", full + "/edit"}
 			for _, path := range paths {
 				for _, method := range AllMethods {
 					want, _ := refResolve(tb, cfg, method, path)
